@@ -469,11 +469,11 @@ theorem infer_core (op : Op) (hop : op.isComparison = true ∨ op = .sub) (L R :
     (hLs : ∀ v ∈ L, v.isInt = true → v.small) (hRs : ∀ v ∈ R, v.isInt = true → v.small)
     (ha : ∀ v ∈ L, v.isInt = true → v.hard = true → v.holds a)
     (hb : ∀ v ∈ R, v.isInt = true → v.hard = true → v.holds b)
-    (r : Value) (hr : r ∈ infer op L R) :
+    (guard : Bool) (r : Value) (hr : r ∈ inferG guard op L R) :
     (r.kind = .known → r.holds (opSem op a b)) ∧
-    (r.kind = .impossible → allHard L → allHard R → r.holds (opSem op a b)) := by
+    (r.kind = .impossible → (guard = true ∨ (allHard L ∧ allHard R)) → r.holds (opSem op a b)) := by
   have hB := Bnd_eq
-  unfold infer at hr
+  unfold inferG at hr
   simp only [] at hr
   have hLs' : ∀ v ∈ L.filter (·.isInt), v.small := fun v hv => hLs v (List.mem_filter.1 hv).1 (List.mem_filter.1 hv).2
   have hRs' : ∀ v ∈ R.filter (·.isInt), v.small := fun v hv => hRs v (List.mem_filter.1 hv).1 (List.mem_filter.1 hv).2
@@ -507,29 +507,64 @@ theorem infer_core (op : Op) (hop : op.isComparison = true ∨ op = .sub) (L R :
     · simp only [List.mem_append] at hr
       refine ⟨?_, ?_⟩
       · intro hk
-        rcases hr with h | h <;> (split at h <;> simp at h) <;> (subst h; simp at hk)
-      · intro _ hL hR
-        have hLR : ∀ v, v ∈ L' ∨ v ∈ R' → v.hard = true := by
-          intro v hv
-          rcases hv with hv | hv
-          · exact hsL hL v hv
-          · exact hsR hR v hv
+        rcases hr with h | h
+        · split at h
+          · split at h
+            · simp at h; subst h; simp at hk
+            · simp at h
+          · simp at h
+        · split at h
+          · split at h
+            · simp at h; subst h; simp at hk
+            · simp at h
+          · simp at h
+      · intro _ hg
+        have claimHard : ∀ refs : List Value, isClaim refs = true → ∀ r ∈ refs, r.hard = true := by
+          intro refs hc r hr'
+          unfold isClaim at hc
+          simp at hc
+          have := hc r hr'
+          unfold Value.hard
+          unfold Value.isPossible Value.isInconclusive at this
+          cases hk : r.kind <;> simp_all
+        have hLR : (∀ v, v ∈ L' ∨ v ∈ R' → v.hard = true) ∨ guard = true := by
+          rcases hg with hg | ⟨hL, hR⟩
+          · exact Or.inr hg
+          · refine Or.inl ?_
+            intro v hv
+            rcases hv with hv | hv
+            · exact hsL hL v hv
+            · exact hsR hR v hv
         rcases hr with h | h
         · split at h
           · rename_i m hm
-            simp at h; subst h
-            have s1 := hd.minS m hm
-            have h1 := hd.minH m hm (fun r hr' => hLR r (hd.minR r hr'))
-            rw [wrap_small _ (by omega)]
-            simp [Value.holds, opSem]; omega
+            split at h
+            · rename_i hc
+              simp at h; subst h
+              have s1 := hd.minS m hm
+              have hrefs : ∀ r ∈ (lhs.minus rhs).minRef, r.hard = true := by
+                rcases hLR with hall | hgt
+                · exact fun r hr' => hall r (hd.minR r hr')
+                · subst hgt; simp at hc; exact claimHard _ hc
+              have h1 := hd.minH m hm hrefs
+              rw [wrap_small _ (by omega)]
+              simp [Value.holds, opSem]; omega
+            · simp at h
           · simp at h
         · split at h
           · rename_i m hm
-            simp at h; subst h
-            have s1 := hd.maxS m hm
-            have h1 := hd.maxH m hm (fun r hr' => hLR r (hd.maxR r hr'))
-            rw [wrap_small _ (by omega)]
-            simp [Value.holds, opSem]; omega
+            split at h
+            · rename_i hc
+              simp at h; subst h
+              have s1 := hd.maxS m hm
+              have hrefs : ∀ r ∈ (lhs.minus rhs).maxRef, r.hard = true := by
+                rcases hLR with hall | hgt
+                · exact fun r hr' => hall r (hd.maxR r hr')
+                · subst hgt; simp at hc; exact claimHard _ hc
+              have h1 := hd.maxH m hm hrefs
+              rw [wrap_small _ (by omega)]
+              simp [Value.holds, opSem]; omega
+            · simp at h
           · simp at h
   · rename_i hnsub
     have hcmp : op.isComparison = true := by
